@@ -63,6 +63,11 @@ impl Delivery {
     }
 
     /// The server-assigned delivery tag for this message. Delivery tags are channel-specific.
+    #[cfg(amiquip_verif)]
+    pub fn verif_channel_id(&self) -> u16 {
+        self.channel_id
+    }
+
     #[inline]
     pub fn delivery_tag(&self) -> u64 {
         self.delivery_tag
